@@ -1186,7 +1186,21 @@ class AV:
     @staticmethod
     def default_inline(callee: Func) -> bool:
         n = callee.name
-        return (n.startswith("_") and not n.startswith("__") and n not in NO_INLINE and not (n.startswith("_print_") and n[7:8].isupper())) or "<locals>" in callee.qualname
+        if (n.startswith("_") and not n.startswith("__") and n not in NO_INLINE and not (n.startswith("_print_") and n[7:8].isupper())) or "<locals>" in callee.qualname:
+            return True
+        # a module-level function the vetted tree does not have is helper code a later edit introduced, whatever its
+        # name: it is read where it is called, like a private helper
+        if "." not in callee.qualname and not n.startswith("__"):
+            try:
+                from . import alpha
+
+                mods = alpha.table().get("modules", {})
+                known = mods.get(callee.rel)
+                if known is not None and n not in known and n not in NO_INLINE:
+                    return True
+            except Exception:
+                pass
+        return False
 
     # -- entry points ---------------------------------------------------------------------------------
     def function(self, f: Func, args: dict | None = None, want_env: bool = False):
